@@ -59,6 +59,12 @@ def cell_scenario(kind, chain, before, after):
             return call("show", e)
         return e
     closures = [["let", "get", lam([], [["return", shown(rd)]])], ["let", "set", lam(["n"], [["expr", wr(V("n"))], ["return", V("n")]])], ["let", "pair", ["list", [V("get"), V("set")]]]]
+    if any(e in ("Rt", "Wt") for e in tuple(before) + tuple(after)):
+        # a reader and a writer that touch the variable first thing in a handler, right after an error came out of another closure's frame
+        # (`boom` has two captured variables of its own): the variable must still be the closure's own
+        closures = closures[:2] + [["let", "gett", lam([], [["try", [["expr", call("boom")]], "eb", None, [["return", shown(rd)]]], ["return", S("unreached")]])],
+                                   ["let", "sett", lam(["n"], [["try", [["expr", call("boom")]], "eb", None, [["expr", wr(V("n"))]]], ["return", V("n")]])],
+                                   ["let", "pair", ["list", [V("get"), V("set"), V("gett"), V("sett")]]]]
     inner = wrap_levels(chain, closures)
     evs = []
     k = 1
@@ -70,6 +76,10 @@ def cell_scenario(kind, chain, before, after):
             evs.append(["expr", wr(N(k))])
         elif ev == "Ra":
             evs.append(["print", [S("Ra"), call(["index", V("pair"), N(0)])]])
+        elif ev == "Rt":
+            evs.append(["print", [S("Rt"), call(["index", V("pair"), N(2)])]])
+        elif ev == "Wt":
+            evs.append(["print", [S("Wt"), call(["index", V("pair"), N(3)], N(k))]])
         else:
             evs.append(["print", [S("Wb"), call(["index", V("pair"), N(1)], N(k))]])
     core = inner + evs + [["return", V("pair")]]
@@ -102,11 +112,18 @@ def cell_scenario(kind, chain, before, after):
         mk = lambda: call("make", *args)
     if kind == "catch":
         pre = [["fn", "show", ["x"], [["try", [["return", ["get", V("x"), "message"]]], "e", None, [["return", V("x")]]]]]] + pre
+    if any(e in ("Rt", "Wt") for e in tuple(before) + tuple(after)):
+        pre = [["fn", "mkboom", [], [["let", "z1", S("z1")], ["let", "z2", S("z2")], ["return", lam([], [["expr", ["assign", "z1", V("z2")]], ["raise", call("Error", V("z1"))]])]]],
+               ["let", "boom", call("mkboom")]] + pre
     prog = pre + decl + [["let", "p1", mk()]]
     for ev in after:
         k += 1
         if ev == "Ra":
             prog.append(["print", [S("aRa"), call(["index", V("p1"), N(0)])]])
+        elif ev == "Rt":
+            prog.append(["print", [S("aRt"), call(["index", V("p1"), N(2)])]])
+        elif ev == "Wt":
+            prog.append(["print", [S("aWt"), call(["index", V("p1"), N(3)], N(k))]])
         else:
             prog.append(["print", [S("aWb"), call(["index", V("p1"), N(1)], N(k))]])
     # a second execution of the declaration: fresh variable (module-level variables are shared by definition)
@@ -287,6 +304,19 @@ class C02(Check):
                                     if not th and nb == 3 and na == 2:
                                         continue
                                     yield ("cell", kind, chain, before, after)
+        # the same family with the two handler events; only sequences that contain one of them (the others are above)
+        evb, eva = EV_BEFORE + ["Rt", "Wt"], EV_AFTER + ["Rt", "Wt"]
+        for kind in KINDS:
+            for d in (1, 2, 3):
+                for chain in CHAINS[d]:
+                    if kind == "field" and chain[0] != "method":
+                        continue
+                    for nb in range(0, (3 if th else 2) + 1):
+                        for before in itertools.product(evb, repeat=nb):
+                            for na in range(0, (2 if th else 1) + 1):
+                                for after in itertools.product(eva, repeat=na):
+                                    if any(e in ("Rt", "Wt") for e in before + after):
+                                        yield ("cell", kind, chain, before, after)
         for s in loop_scenarios():
             yield s
         for s in shadow_scenarios():
